@@ -60,13 +60,14 @@ type reqSpec struct {
 }
 
 type caseSpec struct {
-	Theme   string            `json:"theme"`
-	Cfg     caseCfg           `json:"cfg"`
-	Origins []originSpec      `json:"origins"`
-	Reqs    []reqSpec         `json:"requests"`
-	IPs     map[string]string `json:"ip_to_backend"`
-	Kinds   map[string]string `json:"https_kind_by_qname"`
-	zone    *dohfake.Zone
+	Theme         string            `json:"theme"`
+	Cfg           caseCfg           `json:"cfg"`
+	Origins       []originSpec      `json:"origins"`
+	Reqs          []reqSpec         `json:"requests"`
+	IPs           map[string]string `json:"ip_to_backend"`
+	Kinds         map[string]string `json:"https_kind_by_qname"`
+	NoAddrTargets int               `json:"service_targets_without_address"`
+	zone          *dohfake.Zone
 }
 
 var themes = []string{"cohost", "upgrade", "refuse", "mismatch", "h3first", "h3later", "alpn", "failall", "alias", "plain", "ports", "free", "mixed", "cohost-h3"}
@@ -91,14 +92,14 @@ type hostPlan struct {
 
 type gen struct {
 	realECH []byte
-	rng    *mrand.Rand
-	cs     *caseSpec
-	z      *dohfake.Zone
-	seq    map[string]int
-	svcN   int
-	aliasN int
-	hosts  map[string]*hostPlan
-	done   map[string]bool // query names whose HTTPS scenario is fixed
+	rng     *mrand.Rand
+	cs      *caseSpec
+	z       *dohfake.Zone
+	seq     map[string]int
+	svcN    int
+	aliasN  int
+	hosts   map[string]*hostPlan
+	done    map[string]bool // query names whose HTTPS scenario is fixed
 }
 
 var backendCode = map[string]byte{"A": 1, "B": 2, "C": 3, "P": 4, "dead": 9}
@@ -212,8 +213,13 @@ func (g *gen) svcSet(owner, host, style string, ownerBackend string, hintOnly bo
 		if named && g.svcN < len(svcNames) {
 			h.Target = svcNames[g.svcN]
 			g.svcN++
-			for _, a := range g.addrs(be) {
-				g.z.Add(dohfake.Addr(h.Target, a, 60))
+			if style != "simple" && rng.IntN(8) == 0 {
+				// a target name without any address record: the record cannot be dialled
+				g.cs.NoAddrTargets++
+			} else {
+				for _, a := range g.addrs(be) {
+					g.z.Add(dohfake.Addr(h.Target, a, 60))
+				}
 			}
 		} else {
 			be = ownerBackend
